@@ -276,6 +276,8 @@ SHAPES = {
     # the same concave quad with the reflex vertex at every ring position
     'arrow_r1': [(59, 4), (59, 0), (63, 0), (60, 1)], 'arrow_r2': [(64, 0), (68, 0), (65, 1), (64, 4)][1:] + [(64, 0)],
     'arrow_r3': [(70, 1), (69, 4), (69, 0), (73, 0)], 'arrow_r1_cw': [(75, 4), (76, 1), (79, 0), (75, 0)],
+    # a diagonal between two vertices passes exactly through a third, non-adjacent reflex vertex
+    'pinch': [(83, 3), (81, 4), (83, 0), (84, 1), (83, 1)],
     'L': [(14, 0), (18, 0), (18, 4), (17, 4), (17, 1), (14, 1)],
     'L_collinear': [(19, 0), (21, 0), (23, 0), (23, 4), (22, 4), (22, 1), (19, 1)],
     'zigzag': [(24, 0), (29, 0), (29, 3), (27, 1), (26, 3), (25, 1), (24, 3)],
